@@ -32,7 +32,7 @@ def _alarm(signum, frame):
     raise _Timeout()
 
 
-def guarded(fn, secs=5):
+def guarded(fn, secs=30):
     signal.signal(signal.SIGALRM, _alarm)
     signal.setitimer(signal.ITIMER_REAL, secs)
     try:
